@@ -233,7 +233,7 @@ def r4(repo, res, m, V):
         res.err("C03.R4", f"slot table outside folding language: {e}")
         return
     x = {k: ((hash(str(k)) % 5) / 4.0) for k in S}  # arbitrary fractional test point
-    x = {k: round(0.25 * ((i * 7) % 5), 2) for i, k in enumerate(sorted(S, key=str))}
+    x = {k: round(0.11 + 0.09 * i, 2) for i, k in enumerate(sorted(S, key=str))}
     cov = {"e1": (2.25, 1.5), "e2": (3.0, 3.5), "pce": (0.0, 2.0)}
     E = {"e1": 0.125, "e2": -0.5, "pce": 0.75}
     EG = {"e1": -0.25, "e2": 0.5, "pce": 0.0}
@@ -332,7 +332,7 @@ def r5(repo, res, m, V):
     configs = sample_configs()
     try:
         S = build_structures(f, configs, 3, "5")
-        x = {k: round(0.25 * ((i * 7) % 5), 2) for i, k in enumerate(sorted(S, key=str))}
+        x = {k: round(0.11 + 0.09 * i, 2) for i, k in enumerate(sorted(S, key=str))}
         prof = Obj(cn_diff=10.0, cn_fit=1.0, cn_parsimony=0.5, cn_fusion_left=0.5, cn_fusion_right=0.25, cn_pce_penalty=2.0,
                    cn_max=20, gap=0.0)
         gene = Obj(unique_regions=REG, cn_configs=configs, name="G")
